@@ -74,7 +74,7 @@ def sourceWFb (s : Source) : Bool :=
 def cacheWFb (c : Cache) : Bool :=
   (match c.aof with | some (l, r) => decide (0 ≤ l ∧ l ≤ r ∧ r ≤ maxInt64) | none => true) &&
   (match c.rdb with | some (left, size) => decide (0 ≤ left ∧ 0 < size ∧ left ≤ maxInt64) | none => true) &&
-  (match c.rdb, c.aof with | some (left, _), some (l, _) => decide (l = left) | _, _ => true) &&
+  (match c.rdb, c.aof with | some (left, _), some (l, _) => if c.backend = .disk then decide (l = left) else decide (left ≤ l) | _, _ => true) &&
   (!(c.runId == [] || c.runId == qId) || (c.rdb.isNone && c.aof.isNone))
 
 def rangeList (start : Int) (n : Nat) : List Int := (List.range n).map (fun (k : Nat) => start + (k : Int))
